@@ -100,12 +100,7 @@ def margins(jp):
     return mg
 
 
-def smith_set(jp):
-    cands = list(jp["candidates"])
-    if not cands:
-        return []
-    mg = margins(jp)
-
+def _smith(cands, mg):
     def cope(c):
         return sum((2 if mg[(c, d)] > 0 else 1 if mg[(c, d)] == 0 else 0) for d in cands if d != c)
 
@@ -119,3 +114,22 @@ def smith_set(jp):
                 S.add(y)
                 changed = True
     return sorted(S)
+
+
+def smith_set(jp):
+    cands = list(jp["candidates"])
+    if not cands:
+        return []
+    return _smith(cands, margins(jp))
+
+
+def tiers(jp):
+    """dominating tiers: iterated Smith sets"""
+    cands = list(jp["candidates"])
+    mg = margins(jp)
+    out = []
+    while cands:
+        t = _smith(cands, mg)
+        out.append(t)
+        cands = [c for c in cands if c not in t]
+    return out
